@@ -22,7 +22,8 @@ DB == INSTANCE_DB!DB
 P(root, segs) == INSTANCE_DB!P(root, segs)
 SL(x) == StrL(StrCps(x))
 
-Styles == {"sa-select", "sa-legacy", "dj-queryset", "dj-manager"}
+\* dj-related: the base is a related manager (the posts of author 1), not the model's default manager
+Styles == {"sa-select", "sa-legacy", "dj-queryset", "dj-manager", "dj-related"}
 \* native base conditions the harness knows how to build without the library, with their meaning
 BaseConds == [ npos |-> Cmp("gt", Id0("n"), IntL(0)), ta |-> Cmp("eq", Id0("title"), SL("a")),
                hasauthor |-> Cmp("ne", P("author", <<"name">>), NullL) ]
@@ -52,9 +53,10 @@ PickStyle == /\ q.style = "none" /\ \E s \in Styles : q' = [q EXCEPT !.style = s
 Buildable == q.style \in {"sa-select", "sa-legacy", "dj-queryset"} /\ q.applied = 0
 BaseWhere == /\ Buildable /\ Len(q.wheres) < (IF Deep THEN 2 ELSE 1)
              /\ \E c \in DOMAIN BaseConds : (\A i \in 1..Len(q.wheres) : q.wheres[i] # c) /\ q' = [q EXCEPT !.wheres = Append(@, c)] /\ steps' = Append(steps, <<"where", c>>)
-RelOf(j) == IF j \in {"author-inner", "author-outer"} THEN "author" ELSE "info"
+\* author-explicit: joined by naming the target and the ON clause (join(Author, Post.author_id == Author.id)) instead of the relationship
+RelOf(j) == IF j \in {"author-inner", "author-outer", "author-explicit"} THEN "author" ELSE "info"
 BaseJoin == /\ Buildable /\ Len(q.joins) < (IF Deep THEN 2 ELSE 1) /\ q.style # "dj-queryset"
-            /\ \E j \in {"author-inner", "author-outer", "info-inner", "info-outer"} :
+            /\ \E j \in {"author-inner", "author-outer", "author-explicit", "info-inner", "info-outer"} :
                  (\A i \in 1..Len(q.joins) : RelOf(q.joins[i]) # RelOf(j)) /\ q' = [q EXCEPT !.joins = Append(@, j)] /\ steps' = Append(steps, <<"join", j>>)
 BaseOrder == /\ Buildable /\ q.order = "none"
              /\ q' = [q EXCEPT !.order = "id-desc"] /\ steps' = Append(steps, <<"order", "id-desc">>)
@@ -68,7 +70,8 @@ IsCase == q.applied # 0
 \* ---- meaning
 InnerJoined(rel) == \E i \in 1..Len(q.joins) : q.joins[i] = rel
 BaseOk(r) == /\ \A i \in 1..Len(q.wheres) : EvalR(DB, [k \in {""} |-> <<"Post", r>>], BaseConds[q.wheres[i]]) = TRUEV
-             /\ (InnerJoined("author-inner") => r.author # NULL)
+             /\ ((InnerJoined("author-inner") \/ InnerJoined("author-explicit")) => r.author # NULL)
+             /\ (q.style = "dj-related" => r.author = IV(1))
              /\ (InnerJoined("info-inner") => r.info # NULL)
 BaseRows == { r.id : r \in { x \in DB["Post"] : BaseOk(x) } }
 ResultRows == { r.id : r \in { x \in DB["Post"] : BaseOk(x) /\ EvalR(DB, [k \in {""} |-> <<"Post", x>>], Filters[q.applied]) = TRUEV } }
@@ -80,7 +83,7 @@ Export == PrintT(ToJson(IF IsCase
             THEN [k |-> "case", style |-> q.style, steps |-> steps, filter |-> TextOf(Pr(Filters[q.applied], "min"), SP),
                   base |-> BaseRows, expected |-> ResultRows, ordered |-> q.order # "none", annot |-> q.annot,
                   needs_author |-> NeedsAuthor,
-                  host_joined |-> (\E i \in 1..Len(q.joins) : q.joins[i] \in {"author-inner", "author-outer"})]
+                  host_joined |-> (\E i \in 1..Len(q.joins) : q.joins[i] \in {"author-inner", "author-outer", "author-explicit"})]
             ELSE IF q = Empty THEN [k |-> "db", db |-> DB]
             ELSE [k |-> "partial"]))
 =============================================================================
